@@ -131,6 +131,22 @@ CLAIMED = {
         note="The projection from code objects is part of the trusted bridge; TLC judges a recorded fact base here (DESIGN.md 6 C17).",
         tech="TLA+ namespace state machine; TLC validation of traces recorded through hooks", ref="6 C17"),
 }
+CONF = {"C01", "C02", "C03", "C05", "C07", "C08", "C09", "C10", "C11", "C13", "C15", "C16"}
+CONF_TEXT = (" In addition, seeded random CONFIGURED dataclass families (options x flags x Config.dialect x strategy tables x three alias sources x defaults x nested opt-in; "
+             "200 families quick / 6000 thorough, a slice of its own per property) are driven through several mixin calls with keyword arguments and call dialects, mutated inputs and codec objects "
+             "with / without a default_dialect; every recorded call is judged by TLC (CoreTrace) under the call's own context, and this property reads its own clauses of the verdicts.")
+EXTRA = {
+    "C04": " Codec objects are also constructed with a default_dialect that customises nothing the subject contains (same documents expected).",
+    "C06": " Configured families without strategies (alias sources incl. two on one field, serialized by alias with default options) are schema subjects too.",
+    "C20": " The builder context is also explored as a state machine of its own (sys/SchemaCtx.tla, MC_SchemaCtx): every sequence of builder builds, fresh one-shot builds and one-off build_json_schema calls that share the builder's context while overriding one setting, for dialect x all_refs x ref_prefix; behaviours are replayed against the real builder.",
+    "C12": " A variant that declares a class-level discriminator of its own (two dispatch levels, Discr.tla FromDictD) is explored on the three sites.",
+    "C14": " A parent compiled at its first call that nests a class with unresolved annotations is exercised in every admissible order of first use against the eagerly compiled twin.",
+    "C17": " One generic class specialised with two same-named classes from two modules is a subject in both orders of first compilation.",
+}
+for _k in CONF:
+    CLAIMED[_k]["text"] += CONF_TEXT
+for _k, _v in EXTRA.items():
+    CLAIMED[_k]["text"] += _v
 REASON_PENDING = "check not built yet in this round (construction order DESIGN.md 11); not claimed"
 
 checks = []
